@@ -20,7 +20,23 @@
         if reason == "REASON_RECONCILIATION" && state ∈ {STAGING, STARTING, RUNNING, KILLING, UNKNOWN}
            { calls.Kill(taskID, agentID) }                -- NO roster test ("Reconcilation tasks are not part of the taskman.roster")
         else { go m.updateTaskStatus(&status) }           -- RUNNING ⇒ ACTIVE, terminal ⇒ INACTIVE (roster tasks only)
-      releaseTasks / KillTasks / doKillTasks: unlock, drop non-ACTIVE tasks from the roster, KILL the ACTIVE ones
+      releaseTasks / KillTasks / Cleanup / doKillTasks: unlock, drop non-ACTIVE tasks from the roster, KILL the ACTIVE ones.
+        doKillTasks writes the roster TWICE, with the Mesos KILL calls (one HTTP round trip each, up to
+        mesosApiTimeout) in between:
+          m.roster.updateTasks(m.roster.filtered(not in `tasks`))     -- `releaseBegin`: the tasks are out of the roster
+          for ACTIVE task: if doKillTask(task) fails { m.roster.append(task) } -- `releaseEnd`: only FAILED tasks go back,
+                                                                               each by an append of that one task
+        Nothing else writes the roster: acquireTasks `m.roster.append(taskPtr)` per deployed task (`launch`).
+        No lock is shared between doKillTasks and acquireTasks: deployments of OTHER environments complete inside
+        the window (any steps may come between `releaseBegin e` and `releaseEnd e`). An append commutes with a
+        concurrent append; writing back a SNAPSHOT taken before the calls would not (`Cfg.snapshotRewrite`, the
+        shape the go/ast fact `killTasksRosterWrites` excludes: a task appended inside the window would be lost from
+        the roster although it runs and its environment holds it — `C18_stale_snapshot_kills_owned`).
+        (Each `updateTasks(filtered(..))` is one expression — read lock, release, write lock — taken as atomic here:
+        no call sits between its read and its write.)
+    core/environment: a task role holds its task (role.SetTask / Task.parent) from the end of a successful
+        acquireTasks until the environment is torn down — `St.held`, independent of the roster, observed through
+        GetEnvironments(showTaskInfos)
     core/signals.go  SIGTERM: tear every environment down, Cleanup, EmergencyKillTasks(roster), exit   -- `coreTerm`
 
   The master side is Mesos as documented upstream (trusted, stood in for by harness/sim): SUBSCRIBE with a
@@ -75,6 +91,11 @@ structure Cfg where
   killStates : List MState
   /-- the KILL branch additionally requires the task to be unknown to the roster (notes/C18.fix.patch) -/
   rosterGuard : Bool
+  /-- doKillTasks writes the roster snapshot it took BEFORE its KILL calls back AFTER them (plus the tasks whose
+      KILL failed) instead of appending the failed tasks one by one. NOT what the code does (`false` in both
+      configurations below, tied to the go/ast fact `killTasksRosterWrites`); modelled to show what the roster
+      invariant `C18_roster_complete` — and with it `C18_owned_spared_fixed` — depends on. -/
+  snapshotRewrite : Bool := false
   deriving DecidableEq, Repr
 
 def Cfg.killable (c : Cfg) (s : MState) : Bool := c.killStates.contains s
@@ -82,10 +103,15 @@ def Cfg.killable (c : Cfg) (s : MState) : Bool := c.killStates.contains s
 /-- The code at the pinned commit. -/
 def unguardedCfg : Cfg :=
   { seedFid := true, persistFid := true, failover := true, reconcileOnSubscribed := true, reasonGuard := true,
-    killStates := [.staging, .starting, .running, .killing, .unknown], rosterGuard := false }
+    killStates := [.staging, .starting, .running, .killing, .unknown], rosterGuard := false,
+    snapshotRewrite := false }
 
 /-- The same with the roster test of notes/C18.fix.patch. -/
 def guardedCfg : Cfg := { unguardedCfg with rosterGuard := true }
+
+/-- NOT the code: the guarded configuration with a doKillTasks that writes its roster snapshot back after the
+    KILL calls. Only used to show what `C18_roster_complete` and `C18_owned_spared_fixed` depend on. -/
+def staleCfg : Cfg := { guardedCfg with snapshotRewrite := true }
 
 /-- The master's side of reconciliation: does the answer to the `n`-th RECONCILE include task `t`? -/
 structure World where
@@ -114,6 +140,14 @@ structure RTask where
   active : Bool
   deriving DecidableEq, Repr
 
+/-- A teardown whose KILL calls are in flight (doKillTasks between its two roster writes): the environment, the
+    roster as written by the first write (only read back under `Cfg.snapshotRewrite`), the ACTIVE tasks being killed. -/
+structure Teardown where
+  env : Nat
+  snap : List RTask
+  act : List Nat
+  deriving DecidableEq, Repr
+
 /-- Why a KILL call was made. -/
 inductive Why where
   | update (r : Reason)   -- handleMessage's KILL branch, with the reason of the update that triggered it
@@ -123,7 +157,9 @@ inductive Why where
 
 /-- What the core does that is visible outside (calls to the master, writes to the configuration store),
     plus `snap`: an observer's note "the system is quiescent; these tasks of earlier lives are still alive
-    at the master". `owned` of a KILL = the task was in the roster and locked when the call was made. -/
+    at the master". `owned` of a KILL = when the call was made the task was in the roster and locked, or a live
+    environment held it (`St.held`; the two coincide in every reachable state of the code as it is:
+    `C18_owned_is_held`). -/
 inductive Out where
   | subscribe (life : Nat) (carry : Option Nat)
   | persist (life : Nat) (f : Nat)
@@ -141,6 +177,11 @@ structure St where
   life : Nat
   fidMem : Option Nat
   roster : List RTask
+  /-- what the live environments hold, (task, environment): role.SetTask at the end of a successful deployment,
+      until the environment is torn down. The ground truth of "owned", independent of the roster. -/
+  held : List (Nat × Nat) := []
+  /-- teardowns between their two roster writes (KILL calls in flight), oldest first -/
+  tearing : List Teardown := []
   /-- taskman.MessageChannel: status updates read off the stream, not yet handled -/
   inbox : List Upd
   -- the master
@@ -161,7 +202,7 @@ structure St where
 
 /-- Before the first life; `kv0` is what an earlier installation may have left in `mesos_fid`. -/
 def init (kv0 : Option Nat) : St :=
-  { kv := kv0, alive := false, life := 0, fidMem := none, roster := [], inbox := [],
+  { kv := kv0, alive := false, life := 0, fidMem := none, roster := [], held := [], tearing := [], inbox := [],
     stream := none, hello := none, queue := [], tasks := [], nextFid := (match kv0 with | some f => f + 1 | none => 0),
     recons := 0, seen := [],
     log := (match kv0 with | some f => [Out.persist 0 f] | none => []) }
@@ -187,21 +228,31 @@ inductive Step where
   | status (t : Nat) (s : MState)
   /-- the master sends a reconciliation update of its own accord (explicit reconciliation, unknown task, …) -/
   | reconUpdate (t : Nat) (s : MState)
-  /-- environment `e` is torn down -/
+  /-- environment `e` is torn down (both roster writes and the KILL calls between them, nothing interleaved) -/
   | release (e : Nat)
+  /-- teardown of environment `e`, first half: the environment lets go of its tasks, doKillTasks takes them out
+      of the roster; the KILL calls for the ACTIVE ones are now in flight -/
+  | releaseBegin (e : Nat)
+  /-- … second half: the KILL calls of the oldest teardown of `e` in flight have returned — sent (stream up) or
+      failed (then the tasks go back to the roster, unlocked, one append each) -/
+  | releaseEnd (e : Nat)
   /-- observer: note which tasks of earlier lives are still alive (only when quiescent) -/
   | snapshot
   deriving DecidableEq, Repr
 
 def inRoster (r : List RTask) (t : Nat) : Bool := r.any (fun x => x.id == t)
 def lockedIn (r : List RTask) (t : Nat) : Bool := r.any (fun x => x.id == t && x.locked)
+def heldBy (h : List (Nat × Nat)) (t : Nat) : Bool := h.any (fun p => p.1 == t)
+
+/-- a task put back by doKillTasks after a failed KILL: unlocked (its environment is gone), still ACTIVE -/
+def putBack (e t : Nat) : RTask := { id := t, env := e, locked := false, active := true }
 
 /-- SUBSCRIBED of the current stream has been handled (offers, hence launches, can only come after it). -/
 def St.connected (s : St) : Bool := s.stream.isSome && s.hello.isNone
 
 /-- The process is gone: everything in memory and the connection with it. -/
 def St.exit (s : St) : St :=
-  { s with alive := false, roster := [], inbox := [], stream := none, hello := none, queue := [] }
+  { s with alive := false, roster := [], held := [], tearing := [], inbox := [], stream := none, hello := none, queue := [] }
 
 /-- The master's answer to the `n`-th implicit RECONCILE of framework `f`. -/
 def answerOf (W : World) (n f : Nat) (tasks : List MTask) : List Upd :=
@@ -225,7 +276,7 @@ def step (c : Cfg) (W : World) (s : St) : Step → St
   | .coreStart =>
     if s.alive then s else
     { s with alive := true, life := s.life + 1, fidMem := (if c.seedFid then s.kv else none),
-             roster := [], inbox := [] }
+             roster := [], held := [], tearing := [], inbox := [] }
   | .coreKill => if s.alive then s.exit else s
   | .coreTerm =>
     if !s.alive then s else
@@ -266,7 +317,8 @@ def step (c : Cfg) (W : World) (s : St) : Step → St
     | (t, st, r) :: rest =>
       if (!c.reasonGuard || r == .recon) && c.killable st && (!c.rosterGuard || !inRoster s.roster t) then
         { s with inbox := rest,
-                 log := (if s.stream.isSome then .kill s.life t (.update r) (lockedIn s.roster t) :: s.log else s.log) }
+                 log := (if s.stream.isSome then .kill s.life t (.update r) (lockedIn s.roster t || heldBy s.held t) :: s.log
+                         else s.log) }
       else { s with inbox := rest, roster := setActive s.roster t st }
   | .launch e t =>
     match s.stream with
@@ -274,6 +326,7 @@ def step (c : Cfg) (W : World) (s : St) : Step → St
     | some f =>
       if !s.alive || s.hello.isSome || s.seen.contains t then s else
       { s with roster := s.roster ++ [{ id := t, env := e, locked := true, active := false }],
+               held := s.held ++ [(t, e)],
                tasks := s.tasks ++ [{ id := t, fid := f, life := s.life, env := e, state := .staging }],
                seen := t :: s.seen }
   | .status t st =>
@@ -289,12 +342,31 @@ def step (c : Cfg) (W : World) (s : St) : Step → St
     if !s.alive then s else
     let mine := s.roster.filter (fun x => x.env == e)
     let rest := s.roster.filter (fun x => x.env != e)
+    let held := s.held.filter (fun p => p.2 != e)
     if s.stream.isSome then
-      { s with roster := rest,
+      { s with roster := rest, held := held,
                log := killsFor s.life .release (((mine.filter (·.active)).map (fun x => { x with locked := false })).reverse) ++ s.log }
     else
       -- the KILL calls fail: doKillTasks puts the ACTIVE ones back (unlocked), the others are forgotten
-      { s with roster := rest ++ (mine.filter (·.active)).map (fun x => { x with locked := false }) }
+      { s with roster := rest ++ (mine.filter (·.active)).map (fun x => { x with locked := false }), held := held }
+  | .releaseBegin e =>
+    if !s.alive then s else
+    let mine := s.roster.filter (fun x => x.env == e)
+    let rest := s.roster.filter (fun x => x.env != e)
+    { s with roster := rest, held := s.held.filter (fun p => p.2 != e),
+             tearing := s.tearing ++ [{ env := e, snap := rest, act := (mine.filter (·.active)).map (·.id) }] }
+  | .releaseEnd e =>
+    if !s.alive then s else
+    match s.tearing.find? (fun d => d.env == e) with
+    | none => s
+    | some d =>
+      let tearing := s.tearing.eraseP (fun d => d.env == e)
+      if s.stream.isSome then
+        { s with tearing := tearing, roster := (if c.snapshotRewrite then d.snap else s.roster),
+                 log := killsFor s.life .release ((d.act.map (putBack e)).reverse) ++ s.log }
+      else
+        { s with tearing := tearing,
+                 roster := (if c.snapshotRewrite then d.snap else s.roster) ++ d.act.map (putBack e) }
   | .snapshot =>
     if s.alive && s.connected && s.queue.isEmpty && s.inbox.isEmpty then
       { s with log := .snap s.life (orphans c s) :: s.log }
